@@ -12,7 +12,10 @@ def one(sid):
     try:
         shutil.copytree("/repo/src", os.path.join(tmp, "src"))
         try:
-            base = json.load(open(os.path.join(d, "meta.json"))).get("base")
+            meta = json.load(open(os.path.join(d, "meta.json")))
+            base = meta.get("base")
+            if meta.get("superseded"):
+                return sid, {"error": "superseded: " + meta["superseded"]["by"]}
         except Exception:
             base = None
         if base:
